@@ -390,6 +390,12 @@ def cells(tier):
         out.append(Cell(f"layout/MONTHYEAR-{len(tpl)}/sub1", (lambda I, tpl=tpl: h_template(I, "MONTHYEAR", tpl, 1, "sub")),
                         dict(datatype="MONTHYEAR", template=tpl, mutation="one symbolic character at every position", alphabet=TIME_AB_TXT),
                         goals=["accepted", "rejected"], regions=["c19.strptime_syntax"], budget_s=2400))
+    from checks import c15
+    for dname in c15.PATHS:
+        out.append(Cell(f"through-schema/{dname}", (lambda I, dname=dname: c15.h_stateless(I, dname)),
+                        dict(dictionary=dname, via="FIXSchema.validate on a fresh schema object: a first message, then a SEQNUM field with a symbolic value",
+                             checks="the EndSeqNo=0 special case stays confined to tag 16; the verdict does not depend on earlier validations"),
+                        goals=["judged"], budget_s=1200))
     for path in ("/repo/tests/FIX44.xml", "/repo/tests/TT-FIX44.xml"):
         fields = sorted(enum_fields(path), key=lambda f: int(f.tag))
         name = path.split("/")[-1]
